@@ -680,7 +680,7 @@ def decoder_scope(repo, col, which="chunks"):
                     ok, how = True, how2
                 else:
                     how = how + "; " + how2
-            if not ok and kind == "reshape":
+            if not ok and kind in ("reshape", "view"):
                 ok2, how2 = _reshape_discharge(scope, ff, node, operand)
                 if ok2:
                     ok, how = True, how2
@@ -780,6 +780,12 @@ def _classify(scope, ff, fn, node, t):
                 names_in(node.args[0]) & ff.pil_names:
             return ("pil-load", ["OSError", "ValueError", "SyntaxError"],
                     None, norm(node)[:90])
+        # re-interpreting an array of untrusted length with another item
+        # size raises ValueError when the byte count is not a multiple
+        if isinstance(node.func, ast.Attribute) and node.func.attr == "view" \
+                and (node.args or node.keywords) and \
+                _array_tainted(scope, ff, fn, node.func.value):
+            return ("view", ["ValueError"], node.func.value, norm(node)[:90])
         is_reshape = (isinstance(node.func, ast.Attribute)
                       and node.func.attr == "reshape") or ln == "numpy.reshape"
         if is_reshape:
